@@ -148,7 +148,7 @@ func Harness_C08_getSTH() {
 		var got ct.GetSTHResponse
 		vAssert(vJSONDecode(w.body, &got) == nil, "response is JSON")
 		vAssert(got.TreeSize == size, "STH reports the backend's tree size")
-		vAssert(got.Timestamp == tsNanos/1000000, "STH timestamp is the backend's, in milliseconds")
+		vAssert(got.Timestamp == tsNanos/1000/1000, "STH timestamp is the backend's, in milliseconds")
 		vAssert(string(got.SHA256RootHash) == string(rootHash), "STH reports the backend's root hash")
 		vAssert(len(sg.digests) == 1, "signed exactly once")
 		vReach("ok200")
